@@ -6,7 +6,7 @@ From Coq Require Import String List NArith Bool.
 From J5V.lib Require Import Outcome Strcase.
 From J5V.model Require Import J5sAst Desc J5sWalk J5sLink J5sConvert J5sContract J5sSymbols J5sValid J5sCorr.
 From J5V.gen Require ImportsGen.
-From J5V.proofs Require Import J5sProofs J5sContractProofs J5sLinkProofs J5sResolveProofs J5sResolveCompleteProofs J5sServiceProofs J5sTotalProofs J5sSymbolProofs J5sCompileProofs J5sSubPkgProofs J5sWitnessProofs.
+From J5V.proofs Require Import J5sProofs J5sContractProofs J5sLinkProofs J5sResolveProofs J5sResolveCompleteProofs J5sServiceProofs J5sTotalProofs J5sSymbolProofs J5sCompileProofs J5sSubPkgProofs J5sDepsProofs J5sWitnessProofs.
 Import ListNotations.
 Local Open Scope N_scope.
 
@@ -159,6 +159,19 @@ Theorem C02_imports_become_dependencies : forall self imps x,
   In x imps -> x <> self -> In x (deps_of self imps).
 Proof. exact in_deps_of. Qed.
 Print Assumptions C02_imports_become_dependencies.
+
+(* ... and for compiled packages (whatever compile accepts, valid or not): every reference written
+   in a declaration of a source file of the package - at any depth, nested declarations,
+   requests, responses, topic messages and implicit leading fields included - resolves in the
+   file's environment (to the declaration the documented import rule denotes:
+   C02_references_follow_import_rule), and the file defining its target is the generated file
+   the declaration goes to (main / .service / .topic) or one of that file's dependencies *)
+Theorem C02_references_reach_dependencies : forall snake camel screaming bd pkg D,
+  compile_package snake camel screaming bd pkg = Ok D ->
+  forall f im, In (BJ f) bd -> j5s_pkg f = pkg -> import_map (jf_imports f) [] = Ok im ->
+  file_refs_ok (mkEnv (j5s_pkg f) im (pkg_exports camel bd)) f D.
+Proof. exact compile_refs_imported. Qed.
+Print Assumptions C02_references_reach_dependencies.
 
 (* ---- type names after the link step (fix 2ef7c92: names without a leading dot are qualified
    before linking): the name Root.Path.Name the converter writes for an inline type becomes
